@@ -421,7 +421,7 @@ MATCH_SORTED_ASC = Contract(
     # text lookups: the same obligations did not finish within 40 minutes (sequence theory): bounded stand-in only
     params=dict(lookup_value=Union(NoneT(), Bool(), Int(), Float()), lookup_array=Array(1, kind='list', min_len=0),
                 match_type=Union(Const(1), Const(True)), first=Int(), last=Int()),
-    requires=[pre_sorted_asc], ensures=[post_sorted_asc], tier='deep',
+    requires=[pre_sorted_asc], ensures=[post_sorted_asc], tier='thorough',
     returns=match_result, modular=[BISECT], abstract_str_order=True, fast_branch=True,
     invariants={1: dict(inv=[inv_lo_s], locals=('lo',), vars=dict(lo=Int()), variant=var_lo_s),
                 2: dict(inv=[inv_hi_s], locals=('hi',), vars=dict(hi=Int()), variant=var_hi_s),
@@ -472,7 +472,7 @@ def inv_scan_desc(lookup_value, lookup_array, match_type, result, k):
 MATCH_SORTED_DESC = Contract(
     MATCH, 'C16', name='_match[sorted descending]',
     params=dict(lookup_value=scalar, lookup_array=Array(1, kind='list', min_len=0), match_type=Const(-1)),
-    requires=[pre_sorted_desc], ensures=[post_sorted_desc], tier='deep',
+    requires=[pre_sorted_desc], ensures=[post_sorted_desc], tier='thorough',
     returns=match_result, abstract_str_order=True, fast_branch=True,
     invariants={0: dict(inv=[inv_scan_desc], locals=('result',), index=True, havoc=havoc_noted)})
 
@@ -649,7 +649,7 @@ EXPLANATION = ('Mixed. PROVED (SMT, tables and vectors of ANY size): _match itse
                'VLOOKUP, HLOOKUP, MATCH, array-form and vector-form LOOKUP and INDEX(row, col) over symbolic tables: each returns the cell '
                'INDEX would return at the position _match reports for the very vector the property names (the arguments of '
                'the internal call are proved equal to it pointwise), #VALUE!/#REF! for non-positive / too large indices, '
-               'never a wrapped-around cell; these use only the contract of _match. DEEP TIER ONLY (`--tier deep`, not a registered command: 5 - 25 minutes per scenario, wall-clock caps of the solver portfolio scaled by 4 because one obligation flipped to unknown when 16 scenarios ran at once): '
+               'never a wrapped-around cell; these use only the contract of _match. THOROUGH COMMAND ONLY (5 - 25 minutes per scenario, about half an hour in all; the wall-clock caps of the solver portfolio are scaled by 6 for these contracts because one obligation flipped to unknown when 16 scenarios ran at once under the standard caps): '
                'on data sorted in Excel order (ascending between padding blanks / descending with blanks read as 0, pairwise '
                'formulation, no error values) type 1 answers a position holding the largest value <= v of v\'s type and type '
                '-1 one holding the smallest value >= v, #N/A exactly when there is none (type 1 with a TEXT lookup value did not finish in 40 minutes: bounded only). BOUNDED (native): wildcard lookups '
